@@ -7,6 +7,7 @@ several PYOPENAPI_MAX_DEPTH settings; plus chains / nestings deeper than the lim
 """
 from __future__ import annotations
 
+import json
 import os
 import sys
 
@@ -76,7 +77,11 @@ def cases(tier, seed):
                 out.append({"kind": "malformed", "bad": bad, "pos": pos, "where": where, "L": None})
     out.append({"kind": "tlc", "names": ["User", "UserGroup", "UserGroupItem"], "max_depth": 2, "max_frames": 2 if tier == "quick" else 3, "L": None, "_timeout_s": 900 if tier == "quick" else 3600})
     # long-running chain cases first (tail latency), then dedupe
-    out = [c for c in out if c["kind"] == "tlc"] + [c for c in out if c["kind"] == "chain"][::-1] + [c for c in out if c["kind"] == "malformed"] \
+    # hand-written shapes outside the edge alphabet: schemas that are nothing but a $ref (forwarding names) chained and in cycles; arrays of
+    # arrays of primitives (2-D / 3-D), as property and as top-level schema
+    for name in SHAPE_DOCS:
+        out.append({"kind": "shape", "shape": name, "L": None})
+    out = [c for c in out if c["kind"] == "tlc"] + [c for c in out if c["kind"] == "chain"][::-1] + [c for c in out if c["kind"] in ("malformed", "shape")] \
         + [c for c in out if c["kind"] == "graph"]
     seen = set()
     uniq = []
@@ -129,6 +134,25 @@ def chain_doc(edge, named, depth):
 
     return sandbox.base_doc({"Top": {"type": "object", "properties": {"v": {"type": "integer"}, "n": nest(depth)}},
                              "After": {"type": "object", "properties": {"t": {"$ref": "#/components/schemas/Top"}}}})
+
+
+def _R(n):
+    return {"$ref": "#/components/schemas/" + n}
+
+
+_NUM2 = {"type": "array", "items": {"type": "array", "items": {"type": "number"}}}
+SHAPE_DOCS = {
+    "alias-self": {"Loop": _R("Loop"), "Other": {"type": "object", "properties": {"l": _R("Loop")}}},
+    "alias-2cycle": {"Alpha": _R("Beta"), "Beta": _R("Alpha")},
+    "alias-3cycle": {"Alpha": _R("Beta"), "Beta": _R("Gamma"), "Gamma": _R("Alpha"), "User": {"type": "object", "properties": {"a": _R("Alpha")}}},
+    "alias-chain-to-object": {"First": _R("Second"), "Second": _R("Third"), "Third": {"type": "object", "properties": {"v": {"type": "integer"}}},
+                              "User": {"type": "object", "properties": {"f": _R("First")}}},
+    "arrays-2d": {"LineString": {"type": "object", "properties": {"coordinates": _NUM2, "bbox": {"type": "array", "items": {"type": "number"}}}},
+                  "Matrix": _NUM2,
+                  "Polygon": {"type": "object", "properties": {"coordinates": {"type": "array", "items": _NUM2}, "line": _R("LineString")}}},
+    "arrays-2d-strings": {"Grid": {"type": "object", "properties": {"cells": {"type": "array", "items": {"type": "array", "items": {"type": "string"}}},
+                                                                   "flags": {"type": "array", "items": {"type": "array", "items": {"type": "boolean"}}}}}},
+}
 
 
 def malformed_doc(case):
@@ -337,6 +361,10 @@ def run_case(case):
         doc = malformed_doc(case)
         label = f"malformed|{type(case['bad']).__name__}|{case['pos']}|{case['where']}"
         nontriv = True
+    elif case["kind"] == "shape":
+        doc = sandbox.base_doc(json.loads(json.dumps(SHAPE_DOCS[case["shape"]])))
+        label = f"shape|{case['shape']}"
+        nontriv = True
     else:
         doc = chain_doc(case["edge"], case["named"], case["depth"])
         label = f"chain|{case['edge']}|{'named' if case['named'] else 'anonymous'}|depth={case['depth']}|L={case['L']}"
@@ -347,7 +375,7 @@ def run_case(case):
     found = []
 
     def add(clause, disc, detail):
-        ctx = case["kind"] if case["kind"] in ("graph", "malformed") else f"chain:{case['edge']}:{'named' if case['named'] else 'anonymous'}"
+        ctx = case["kind"] if case["kind"] in ("graph", "malformed") else ("shape:" + case["shape"]) if case["kind"] == "shape" else f"chain:{case['edge']}:{'named' if case['named'] else 'anonymous'}"
         found.append({"sig": f"C08|{clause}|{disc}|{ctx}", "key": label, "msg": f"{detail} in {label}"})
 
     if isinstance(err, RecursionError):
